@@ -243,8 +243,12 @@ CHECKS = {
             "target's columns raises ColumnError from apply for EVERY combination of preferred_engine/backtrack/transfer/"
             "require options; chain with different engines/columns -> EngineError/ColumnError; join predicate column missing "
             "from both operands -> ColumnError through every option; negative/reversed slice -> ValueError, step != 1 -> "
-            "TypeError (constructor check regenerated from source); unsupported calculation -> EngineError. Proof "
-            "(partial): cross-engine joins without transfer and unsupported expressions merged with an upstream operation "
+            "TypeError (constructor check regenerated from source); unsupported calculation -> EngineError; Join.apply on "
+            "operands of different engines never returns a relation and raises EngineError whenever the columns are fine, and "
+            "relation.join(fixed, backtrack=False, transfer=False) across engines never returns a relation "
+            "(cross_engine_join_*). Proof "
+            "(partial): cross-engine joins with back-tracking but without transfer (rejected or not depending on whether "
+            "back-tracking finds a place) and unsupported expressions merged with an upstream operation "
             "are validated by the oracle, not proved. " + CORR, "", "DESIGN.md 5/C20"),
 }
 
